@@ -2,6 +2,8 @@ import RPVerif.Lemmas.Sched
 import RPVerif.Lemmas.NodeList
 import RPVerif.Lemmas.SchedRun
 import RPVerif.Gen.NodeList
+import RPVerif.Gen.Exec
+import RPVerif.Model.WatchQueue
 
 /-!
 # C03 — Released resources come back exactly once and completely
@@ -237,5 +239,20 @@ theorem C03_history_restored (c : Cfg) (nodes0 : List NodeSt) (its : List Iter) 
         have hl : l = l0 := by omega
         have hm : m = m0 := by omega
         rw [hl, hm]
+
+/-! ### a cancelled task gives its resources back also when its process group is gone (round 18) -/
+
+/-- **C03, released exactly once on cancel**: with every signal of `LaunchMethod.cancel_task` sent under a handler for
+    OSError (`Gen.killGuardsGoneProcess`, read from the source), a task that `Popen.cancel_task` has taken out of the
+    registry gives its resources back once - whether its process group could still be signalled or not -/
+theorem C03_cancel_releases_when_group_gone (groupGone : Bool) :
+    WatchQueue.cancelReleases Gen.killGuardsGoneProcess groupGone = 1 := by
+  have e : Gen.killGuardsGoneProcess = true := by decide
+  rw [e]
+  cases groupGone <;> rfl
+
+/-- without the handler a process group that is gone ends cancel_task before the release: nothing comes back -/
+theorem C03_cancel_releases_witness :
+    WatchQueue.cancelReleases false true = 0 ∧ WatchQueue.cancelReleases false false = 1 := by decide
 
 end RPVerif.C03
